@@ -268,6 +268,9 @@ def run(F, R, tier):
                 "remove_audit_map_entry reaches its Ok result only through the map's remove() call",
                 "remove_audit_map_entry can report success without deleting (remove() calls: %d)" % len(rmc),
                 witness={"path_lines": Bm.path_lines(pth)} if pth else None)
+    # the handle on the eBPF object is obtained by a reliable actor round trip (lookup and remove both start with it)
+    contracts.reliable_round_trip(F, R, "C07.R4", AP + "shared_state::redirector_wrapper::RedirectorSharedState::get_bpf_object",
+                                  "RedirectorSharedState::get_bpf_object")
     # the mutex around the eBPF object is taken with a blocking lock() on the consume path
     ra = F.body_of(AP + "redirector::remove_audit")
     if ra:
